@@ -105,7 +105,8 @@ class Ctx:
             self.write(cfgname, cfg)
         elif cfg is not None:
             cfgname = cfg
-        meta = os.path.join(self.work, "meta-" + tag + "-" + str(len(self.tlc_runs)))
+        self._uniq = getattr(self, "_uniq", 0) + 1
+        meta = os.path.join(self.work, "meta-" + tag + "-" + str(self._uniq))
         cmd = ["java", "-XX:+UseParallelGC", "-Xss16m"]
         if dfs:
             cmd.append("-Dtlc2.tool.queue.IStateQueue=StateDeque")
@@ -174,7 +175,8 @@ class Ctx:
             chunk = events[s * per:(s + 1) * per]
             if not chunk:
                 continue
-            p = os.path.join(self.work, "trace-%s-%d-%d.ndjson" % (module, len(self.tlc_runs), s))
+            self._uniq = getattr(self, "_uniq", 0) + 1
+            p = os.path.join(self.work, "trace-%s-%d-%d-%d.ndjson" % (module, len(self.tlc_runs), self._uniq, s))
             with open(p, "w") as f:
                 for e in chunk:
                     f.write(json.dumps(e, ensure_ascii=True, separators=(",", ":")) + "\n")
@@ -202,6 +204,24 @@ class Ctx:
                 eid, _, clause = line.partition(" ")
                 mism.setdefault(eid, []).append(clause)
         self.traces_validated += n
+        return mism
+
+    def validate_histories(self, module, events, groups=None, **kw):
+        """Stateful trace specs: the log is a sequence of histories, each starting with an "env" event.
+        Histories are independent, so they are distributed over several TLC runs (never split)."""
+        hists = []
+        for e in events:
+            if e.get("op") == "env" or not hists:
+                hists.append([])
+            hists[-1].append(e)
+        groups = groups or max(1, min(NCPU, len(hists) // 8 + 1))
+        buckets = [[] for _ in range(groups)]
+        for i, h in enumerate(hists):
+            buckets[i % groups].extend(h)
+        mism = {}
+        with concurrent.futures.ThreadPoolExecutor(max_workers=groups) as ex:
+            for m in ex.map(lambda b: self.validate_trace(module, b, shards=1, **kw) if b else {}, buckets):
+                mism.update(m)
         return mism
 
     # ------------------------------------------------------------ bookkeeping
